@@ -280,6 +280,9 @@ func c17Run(c *Ctx) {
 			c.Distinct("schedules", "failing/"+addr+"/gmp"+procs)
 			det := map[string]any{"addr": addr, "run_error": fmt.Sprint(rerr)}
 			if !returned {
+				if mustFail[caseName] {
+					c.Violate("Run did not return an error for a port that is already in use", fmt.Sprintf("Run(%q): the port is held by another listener/server; after 5s Run has neither returned nor has Ready() become true", addr), det)
+				}
 				// Run is serving on an address we expected to fail: not a Ready() matter; make it stop and move on
 				srv.S.Stop()
 				c.Note("unexpectedly_listening/"+addr, true)
@@ -462,7 +465,19 @@ func c17Disturbances(c *Ctx) {
 				if ep%3 == 2 {
 					firstOpts = append(firstOpts, gldap.WithTLSConfig(pki.ServerOnly)) // what the failed Run was given does not stick
 				}
-				first := again.S.Run(blocker.Addr().String(), firstOpts...)
+				// (the port is held by the harness for as long as this takes: a Run that neither returns nor becomes ready
+				// within the bound is not going to do either)
+				firstRet := make(chan error, 1)
+				go func() { firstRet <- again.S.Run(blocker.Addr().String(), firstOpts...) }()
+				var first error
+				select {
+				case first = <-firstRet:
+				case <-time.After(bound):
+					c.Violate("Run did not return an error for a port that is already in use", fmt.Sprintf("Run(%q): the port is held by another listener; after %s Run has neither returned nor has Ready() become true (%v)", blocker.Addr().String(), bound, again.S.Ready()), map[string]any{"episode": ep})
+					again.S.Stop()
+					blocker.Close()
+					continue
+				}
 				second := make(chan error, 1)
 				addr2 := fmt.Sprintf("127.0.0.1:%d", freePort())
 				if ep%2 == 1 {
